@@ -8,6 +8,7 @@ import (
 
 	"github.com/q191201771/lal/pkg/base"
 	"github.com/q191201771/lal/pkg/httpflv"
+	"github.com/q191201771/lal/pkg/logic"
 	"pgregory.net/rapid"
 
 	"verif/drv/pbt"
@@ -88,8 +89,10 @@ type RMsg struct {
 }
 
 type RtmpSrvCase struct {
+	// Push: lal is relay-push client (a healthy publisher publishes, lal pushes to the stub) instead of relay-pull client
+	Push      bool   `json:"push,omitempty"`
 	Handshake string `json:"handshake"` // ok | badversion | short | garbage | s2-missing | none
-	Stage     string `json:"stage"`     // none | connected | created | playing
+	Stage     string `json:"stage"`     // none | connected | created | playing (push: publish accepted)
 	Msgs      []RMsg `json:"msgs"`
 	Mut       Mut    `json:"mut"`
 	Slices    []int  `json:"slices,omitempty"`
@@ -147,6 +150,10 @@ func (c *RtmpSrvCase) prefix(w *rtmpref.ChunkWriter) []byte {
 	}
 	cmd("_result", 2, 3, 0, rtmpref.Null(), rtmpref.Num(1))
 	if c.Stage == "created" {
+		return out
+	}
+	if c.Push {
+		cmd("onStatus", 0, 5, 1, rtmpref.Null(), statusObj("NetStream.Publish.Start"))
 		return out
 	}
 	cmd("onStatus", 0, 5, 1, rtmpref.Null(), statusObj("NetStream.Play.Start"))
@@ -290,6 +297,38 @@ func runRtmpPull(c RtmpSrvCase) *pbt.Violation {
 	return probe(s)
 }
 
+// runRtmpPush: a healthy publisher publishes a stream of a server configured to relay-push to the hostile stub.
+func runRtmpPush(c RtmpSrvCase) *pbt.Violation {
+	memBackpressure()
+	hsk, chunks := c.wire()
+	hs := newHostileServerSeg(func(int) []segment {
+		gate := 1537 + 1536 + 12
+		if c.Handshake != "ok" {
+			gate = 0
+		}
+		return []segment{{data: hsk, waitRecv: 1537}, {data: chunks, slices: c.Slices, waitRecv: gate}}
+	})
+	defer hs.close()
+	s := inproc.New(inproc.Config{RtmpGopNum: 1, FlvGopNum: 1, TsGopNum: 1, PushAddrs: []string{hs.Addr}})
+	defer s.Close()
+	fd, v := startFeed(s) // publishing starts the push
+	if v != nil {
+		return v
+	}
+	if v := waitPullOver(s, hs, 1, "rtmp.(*ClientSession)", "rtmp-push"); v != nil {
+		return v
+	}
+	fd.frames(1)
+	fd.p.Close()
+	return probe(s)
+}
+
+func genRtmpPushCase(t *rapid.T) RtmpSrvCase {
+	c := genRtmpSrvCase(t)
+	c.Push = true
+	return c
+}
+
 func classifyRtmpSrv(c RtmpSrvCase) (bool, []string) {
 	labels := []string{"handshake:" + c.Handshake, "stage:" + c.Stage}
 	for i, m := range c.Msgs {
@@ -309,6 +348,16 @@ func TestRtmpPullClient(t *testing.T) {
 	pbt.Run(t, pbt.Spec[RtmpSrvCase]{
 		ID: "C13", Name: "client-rtmp-pull", Gen: genRtmpSrvCase, Run: runRtmpPull, Classify: classifyRtmpSrv, Isolate: true,
 		Quick: 500, Thorough: 2500,
+	})
+}
+
+func TestRtmpPushClient(t *testing.T) {
+	prev := logic.RelayPushTimeoutMs
+	logic.RelayPushTimeoutMs = 600 // as for the pulls: a failed attempt is kept until this timeout
+	defer func() { logic.RelayPushTimeoutMs = prev }()
+	pbt.Run(t, pbt.Spec[RtmpSrvCase]{
+		ID: "C13", Name: "client-rtmp-push", Gen: genRtmpPushCase, Run: runRtmpPush, Classify: classifyRtmpSrv, Isolate: true,
+		Quick: 300, Thorough: 1500,
 	})
 }
 
@@ -488,7 +537,7 @@ func genRResp(t *rapid.T) *RResp {
 func genRtspSrvCase(t *rapid.T) RtspSrvCase {
 	var c RtspSrvCase
 	c.Stage = rapid.SampledFrom([]string{"none", "options", "described", "setup", "playing", "playing", "playing"}).Draw(t, "stage")
-	c.Video = rapid.SampledFrom([]string{"avc", "avc", "hevc", ""}).Draw(t, "video")
+	c.Video = rapid.SampledFrom([]string{"avc", "avc", "hevc", "hevc", ""}).Draw(t, "video")
 	c.Audio = rapid.SampledFrom([]string{"aac", "aac", "pcma", "opus", ""}).Draw(t, "audio")
 	if c.Video == "" && c.Audio == "" {
 		c.Audio = "aac"
@@ -714,7 +763,9 @@ func genFlvSrvCase(t *rapid.T) FlvSrvCase {
 
 func runFlvPull(c FlvSrvCase) *pbt.Violation {
 	var hs *hostileServer
-	hs = newHostileServer(func(i int) ([]byte, []int) { return c.wire(hs.Addr, i), c.Slices })
+	addr := ""
+	hs = newHostileServer(func(i int) ([]byte, []int) { return c.wire(addr, i), c.Slices })
+	addr = hs.Addr
 	defer hs.close()
 	sess := httpflv.NewPullSession(func(o *httpflv.PullSessionOption) {
 		o.PullTimeoutMs = 8000
